@@ -7,12 +7,25 @@
 (*       [k : "code" | "default" | "range", code : Nat, content : BOOLEAN] *)
 (*    (code = the status for "code", the hundreds digit for "range" - the  *)
 (*    OpenAPI keys "4XX" / "5XX" -, 0 for "default"; content = the         *)
-(*    response declares a JSON body);                                      *)
+(*    response declares a JSON body); the document lists the responses in  *)
+(*    some ORDER, of which the generator uses exactly one fact: which      *)
+(*    response is listed FIRST (`first`, the fallback of the primary-      *)
+(*    response choice) - a scenario is the pair (decl, first);             *)
+(*  * the BODY the server answers with is a call dimension: a JSON object  *)
+(*    that fits the declared schema, a JSON array, a JSON string, JSON     *)
+(*    null, an empty body, an HTML page (Bodies);                          *)
 (*  * IMPLEMENTATION-SHAPED outcome functions, one per place where the     *)
 (*    code decides (variant "as_is"):                                      *)
 (*      TransportExc     http_transport.py:189-191 - HttpxTransport raises *)
 (*                       the BASE HTTPError(status_code=, message=,        *)
 (*                       response=) for status < 200 or >= 300;            *)
+(*      Primary          endpoint_utils._get_primary_response: 200, 201,   *)
+(*                       202, 204, other 2xx, `default`, else THE FIRST    *)
+(*                       LISTED response (an error response then decides   *)
+(*                       the method's return type);                        *)
+(*      PrimaryCase      response_handler_generator.py:436-453 - the       *)
+(*                       primary response gets the value-returning first   *)
+(*                       `case` only when its key is a numeric 2xx;        *)
 (*      DeclaredOutcome  response_handler_generator.py:457-489 - one       *)
 (*                       `case <code>:` per numeric key; 2xx returns, every*)
 (*                       other code raises the alias class                 *)
@@ -30,7 +43,8 @@
 (*                       when the default response has content AND the     *)
 (*                       operation's return type is not None the status is *)
 (*                       ignored and the body is parsed and RETURNED with  *)
-(*                       the PRIMARY response's type; otherwise the base   *)
+(*                       the PRIMARY response's type (a non-object body    *)
+(*                       makes that parse raise - Broken); otherwise base  *)
 (*                       HTTPError(response=, message=, status_code=);     *)
 (*      CatchAllOutcome  lines 506-514 - base HTTPError(response=,         *)
 (*                       message=, status_code=response.status_code);      *)
@@ -59,9 +73,14 @@ CodeKey(c, hasContent) == [k |-> "code", code |-> c, content |-> hasContent]
 DefaultKey(hasContent) == [k |-> "default", code |-> 0, content |-> hasContent]
 RangeKey(digit)        == [k |-> "range", code |-> digit, content |-> FALSE]
 
-\* the family of the design check and of the replay: 200 carries a JSON body, 204 and the error codes do not
-Universe == {CodeKey(200, TRUE), CodeKey(204, FALSE), CodeKey(302, FALSE), CodeKey(404, FALSE), CodeKey(418, FALSE),
-             CodeKey(500, FALSE), DefaultKey(TRUE), DefaultKey(FALSE), RangeKey(4), RangeKey(5)}
+\* the family of the design check and of the replay: 200 carries a JSON body, 204 does not; 404, 418, 500 are error
+\* responses without a body, 410 is an error response WITH a body (a "problem" document)
+Universe == {CodeKey(200, TRUE), CodeKey(204, FALSE), CodeKey(302, FALSE), CodeKey(404, FALSE), CodeKey(410, TRUE),
+             CodeKey(418, FALSE), CodeKey(500, FALSE), DefaultKey(TRUE), DefaultKey(FALSE), RangeKey(4), RangeKey(5)}
+
+\* what the fake server puts into the response; only "object" can be parsed into the declared model
+Bodies == {"object", "array", "string", "null", "empty", "html"}
+Parses(b) == b = "object"
 
 Is2xx(s) == s \in 200..299
 Is4xx(s) == s \in 400..499
@@ -74,17 +93,25 @@ Ranges(d)      == {m.code : m \in {x \in d : x.k = "range"}}
 HasDefault(d)  == Defaults(d) # {}
 DefaultContent(d) == \E m \in Defaults(d) : m.content
 
-\* one response per key (a JSON/YAML mapping), at least one response (OpenAPI requires it); a non-2xx numeric
-\* response declares no body in this family (so the "first listed response" fallback of the primary-response
-\* choice, which is order dependent, cannot matter)
+\* one response per key (a JSON/YAML mapping), at least one response (OpenAPI requires it)
 WellFormed(d) ==
   /\ d # {}
   /\ Cardinality(Defaults(d)) <= 1
   /\ \A m, n \in CodeMembers(d) : m.code = n.code => m = n
-  /\ \A m \in CodeMembers(d) : m.code \in 100..599 /\ (m.content => Is2xx(m.code))
+  /\ \A m \in CodeMembers(d) : m.code \in 100..599
   /\ \A r \in Ranges(d) : r \in 1..5
 
 DeclSets(members, max) == {d \in UNION {kSubset(n, members) : n \in 1..max} : WellFormed(d)}
+
+\* canonical listing order: numeric keys ascending, then range keys, then default
+Rank(m) == (CASE m.k = "code" -> 0 [] m.k = "range" -> 10000 [] OTHER -> 20000) + 2 * m.code + (IF m.content THEN 1 ELSE 0)
+CanonFirst(d) == CHOOSE m \in d : \A n \in d : Rank(m) <= Rank(n)
+HasSuccess(d) == \E c \in Codes(d) : Is2xx(c)
+\* which response is listed first: every choice (allOrders), or every choice only for documents that declare no
+\* success response at all (the ones for which "first listed" is the documented fallback) and the canonical one otherwise
+Firsts(d, allOrders) == IF allOrders \/ ~HasSuccess(d) THEN d ELSE {CanonFirst(d)}
+Scenarios(members, max, allOrders) ==
+  UNION {{[d |-> d, first |-> f] : f \in Firsts(d, allOrders)} : d \in DeclSets(members, max)}
 
 ClassName(s) == CASE s \in 100..199 -> "1xx" [] s \in 200..299 -> "2xx" [] s \in 300..399 -> "3xx"
                   [] s \in 400..499 -> "4xx" [] s \in 500..599 -> "5xx" [] OTHER -> "other"
@@ -108,27 +135,38 @@ ByRange(s) == IF Is4xx(s) THEN Client ELSE IF Is5xx(s) THEN Server ELSE Base
 
 Raise(mro, s, r) == [kind |-> "raise", mro |-> mro, status |-> s, hasResponse |-> r, exc |-> ""]
 Return           == [kind |-> "return", mro |-> {}, status |-> 0, hasResponse |-> FALSE, exc |-> ""]
+\* an exception that is not the package's HTTPError at all (json / cattrs / TypeError / ...)
+Broken           == [kind |-> "raise", mro |-> {}, status |-> 0, hasResponse |-> FALSE, exc |-> ""]
 Unimportable     == [kind |-> "unimportable", mro |-> {}, status |-> 0, hasResponse |-> FALSE, exc |-> ""]
 NoOutcome        == [kind |-> "none", mro |-> {}, status |-> 0, hasResponse |-> FALSE, exc |-> ""]
+
+\* `return structure_from_dict(response.json(), <Model>)`: a value iff the body is a JSON object of the model's shape
+Parsed(b) == IF Parses(b) THEN Return ELSE Broken
 
 Project(o) == [kind |-> o.kind, mro |-> o.mro, status |-> o.status, hasResponse |-> o.hasResponse]
 
 Variants == {"as_is", "fixed"}
 
-\* _get_primary_response / ResponseStrategyResolver._get_primary_response: 200, 201, 202, 204, any other 2xx
-\* key, then default, then the first listed response
-Primary(d) ==
+\* _get_primary_response / ResponseStrategyResolver._get_primary_response, rule by rule (Dispatch.tla has one action
+\* per rule): 200, 201, 202, 204, any other 2xx key (document order; the family has at most 200 and 204) ...
+SuccessPrimary(d) ==
   LET two == {m \in CodeMembers(d) : Is2xx(m.code)}
       pick(c) == CHOOSE m \in two : m.code = c
   IN  IF 200 \in Codes(d) THEN pick(200)
       ELSE IF 201 \in Codes(d) THEN pick(201)
       ELSE IF 202 \in Codes(d) THEN pick(202)
       ELSE IF 204 \in Codes(d) THEN pick(204)
-      ELSE IF two # {} THEN pick(Min({m.code : m \in two}))
-      ELSE IF HasDefault(d) THEN CHOOSE m \in Defaults(d) : TRUE
-      ELSE CHOOSE m \in d : TRUE
+      ELSE pick(Min({m.code : m \in two}))
+\* ... then `default` ...
+DefaultPrimary(d) == CHOOSE m \in Defaults(d) : TRUE
+\* ... finally "the first listed response if any": an ERROR response becomes the primary response and its body
+\* schema the method's return type
+Primary(d, first) ==
+  IF HasSuccess(d) THEN SuccessPrimary(d)
+  ELSE IF HasDefault(d) THEN DefaultPrimary(d)
+  ELSE first
 \* strategy.return_type != "None"
-ReturnsValue(d) == Primary(d).content
+ReturnsValue(d, first) == Primary(d, first).content
 
 Importable(v, d) == v = "fixed" \/ \A c \in Codes(d) : Is2xx(c) \/ Is4xx(c) \/ Is5xx(c)
 
@@ -136,29 +174,40 @@ Importable(v, d) == v = "fixed" \/ \A c \in Codes(d) : Is2xx(c) \/ Is4xx(c) \/ I
 TransportRaises(t, s) == t = "bundled" /\ ~Is2xx(s)
 TransportExc(v, s)    == Raise(IF v = "fixed" THEN ByRange(s) ELSE Base, s, TRUE)
 
+\* the primary response gets the first, value-returning case only when it is a numeric 2xx key
+\* (response_handler_generator.py:438-453); a primary picked by the fallback rules is handled like any other response
+PrimaryCase(p)       == p.k = "code" /\ Is2xx(p.code)
+PrimaryHit(d, f, s)  == PrimaryCase(Primary(d, f)) /\ s = Primary(d, f).code
+PrimaryOutcome(p, b) == IF p.content THEN Parsed(b) ELSE Return
+
 DeclaredHit(d, s)     == s \in Codes(d)
-DeclaredOutcome(v, s) == IF Is2xx(s) THEN Return ELSE Raise(ByRange(s), s, TRUE)
+MemberOf(d, s)        == CHOOSE m \in CodeMembers(d) : m.code = s
+\* `case <code>:` of a non-primary response: a 2xx key returns (None without content), ANY other key raises its alias
+\* - whether or not the response declares a body
+DeclaredOutcome(v, d, s, b) ==
+  IF Is2xx(s) THEN (IF MemberOf(d, s).content THEN Parsed(b) ELSE Return) ELSE Raise(ByRange(s), s, TRUE)
 
 RangeHit(v, d, s)     == v = "fixed" /\ ~DeclaredHit(d, s) /\ (s \div 100) \in Ranges(d)
-RangeOutcome(s)       == IF Is2xx(s) THEN Return ELSE Raise(ByRange(s), s, TRUE)
+RangeOutcome(s, b)    == IF Is2xx(s) THEN Parsed(b) ELSE Raise(ByRange(s), s, TRUE)
 
-DefaultOutcome(v, d, s) ==
+DefaultOutcome(v, d, f, s, b) ==
   IF v = "as_is"
-    THEN IF DefaultContent(d) /\ ReturnsValue(d) THEN Return ELSE Raise(Base, s, TRUE)
-    ELSE IF Is2xx(s) /\ DefaultContent(d) /\ ReturnsValue(d) THEN Return ELSE Raise(ByRange(s), s, TRUE)
+    THEN IF DefaultContent(d) /\ ReturnsValue(d, f) THEN Parsed(b) ELSE Raise(Base, s, TRUE)
+    ELSE IF Is2xx(s) /\ DefaultContent(d) /\ ReturnsValue(d, f) THEN Parsed(b) ELSE Raise(ByRange(s), s, TRUE)
 
 CatchAllOutcome(v, s) == Raise(IF v = "fixed" THEN ByRange(s) ELSE Base, s, TRUE)
 
-MatchOutcome(v, d, s) ==
-  IF DeclaredHit(d, s) THEN DeclaredOutcome(v, s)
-  ELSE IF RangeHit(v, d, s) THEN RangeOutcome(s)
-  ELSE IF HasDefault(d) THEN DefaultOutcome(v, d, s)
+MatchOutcome(v, d, f, s, b) ==
+  IF PrimaryHit(d, f, s) THEN PrimaryOutcome(Primary(d, f), b)
+  ELSE IF DeclaredHit(d, s) THEN DeclaredOutcome(v, d, s, b)
+  ELSE IF RangeHit(v, d, s) THEN RangeOutcome(s, b)
+  ELSE IF HasDefault(d) THEN DefaultOutcome(v, d, f, s, b)
   ELSE CatchAllOutcome(v, s)
 
-ModelOutcome(v, d, t, s) ==
+ModelOutcome(v, d, f, t, s, b) ==
   IF ~Importable(v, d) THEN Unimportable
   ELSE IF TransportRaises(t, s) THEN TransportExc(v, s)
-  ELSE MatchOutcome(v, d, s)
+  ELSE MatchOutcome(v, d, f, s, b)
 
 \* ---------------------------------------------------------------------------------------------
 \* the property (C06) and its judge
@@ -177,16 +226,17 @@ Holds(s, o) ==
      /\ (Is4xx(s) => IsClientError(o))
      /\ (Is5xx(s) => IsServerError(o))
 
-Locus(d, t, s, exc) == [transport |-> t, status_class |-> ClassName(s), coverage |-> Coverage(d, s), exc |-> exc]
-F(c, d, t, s, exc)  == [clause |-> c, locus |-> Locus(d, t, s, exc)]
+\* exc / body are part of the locus only where they matter (an exception that is not an HTTPError): "" otherwise
+Locus(d, t, s, exc, body) == [transport |-> t, status_class |-> ClassName(s), coverage |-> Coverage(d, s), exc |-> exc, body |-> body]
+F(c, d, t, s, exc, body)  == [clause |-> c, locus |-> Locus(d, t, s, exc, body)]
 
 \* every failing clause of one call; an outcome that is not an HTTPError has no status / response / class to judge
-Failures(d, t, s, o) ==
+Failures(d, t, s, b, o) ==
   IF Is2xx(s) \/ o.kind = "unimportable" THEN {}
-  ELSE IF o.kind # "raise" THEN {F("C06.returned", d, t, s, "")}
-  ELSE IF ~IsHTTPError(o) THEN {F("C06.not_http_error", d, t, s, o.exc)}
-  ELSE (IF o.status # s THEN {F("C06.status_attr", d, t, s, "")} ELSE {})
-       \cup (IF ~o.hasResponse THEN {F("C06.response_attr", d, t, s, "")} ELSE {})
-       \cup (IF Is4xx(s) /\ ~IsClientError(o) THEN {F("C06.not_client_error", d, t, s, "")} ELSE {})
-       \cup (IF Is5xx(s) /\ ~IsServerError(o) THEN {F("C06.not_server_error", d, t, s, "")} ELSE {})
+  ELSE IF o.kind # "raise" THEN {F("C06.returned", d, t, s, "", "")}
+  ELSE IF ~IsHTTPError(o) THEN {F("C06.not_http_error", d, t, s, o.exc, b)}
+  ELSE (IF o.status # s THEN {F("C06.status_attr", d, t, s, "", "")} ELSE {})
+       \cup (IF ~o.hasResponse THEN {F("C06.response_attr", d, t, s, "", "")} ELSE {})
+       \cup (IF Is4xx(s) /\ ~IsClientError(o) THEN {F("C06.not_client_error", d, t, s, "", "")} ELSE {})
+       \cup (IF Is5xx(s) /\ ~IsServerError(o) THEN {F("C06.not_server_error", d, t, s, "", "")} ELSE {})
 =============================================================================
